@@ -160,6 +160,7 @@ func fwHistory(c *h.Ctx, id string, prop string) {
 			hh = hh[:8]
 		}
 		c.Sample(map[string]any{"options": fr.opts, "faces": fr.faceDesc(), "steps": len(fr.hist), "first_steps": hh})
+		c.Count("packets_ingested_as_link_fragments", int64(fr.sim.NFragmented))
 	}
 }
 
@@ -177,7 +178,7 @@ func fwRunner(prop string, quick, thorough int) func(c *h.Ctx) {
 }
 
 const fwWorkload = "histories of 25-60 steps on one real forwarding thread driven synchronously through hooks, 5-6 recording faces (2 local, 3-4 non-local, one ad-hoc), names from a shared-prefix universe (+/localhost), CanBePrefix/MustBeFresh, nonces from a set of 6, hop limits {absent,0,1,2,255}, lifetimes {20 ms,40 ms,default,10 s}, " +
-	"downstream tokens {none,1,4,6,32 bytes}, forwarding hints in/outside the producer region, NextHopFaceId, Data with echoed/old/foreign/short/no token from upstream or any face, FIB and strategy changes, sleeps and maintenance ticks; both strategies, cache on/off, both FIB implementations; "
+	"every fourth packet delivered to the ingress link service as two or three link-protocol fragments, downstream tokens {none,1,4,6,32 bytes}, forwarding hints in/outside the producer region, NextHopFaceId, Data with echoed/old/foreign/short/no token from upstream or any face, FIB and strategy changes, sleeps and maintenance ticks; both strategies, cache on/off, both FIB implementations; "
 
 func init() {
 	h.Register(&h.Prop{
